@@ -284,6 +284,9 @@ func runScenario(sc *scenario, seed uint64, res *hx.Result, em *emitter, allPath
 			oc.templates++
 			ta, tb := oa.Tpls[j], ob.Tpls[j]
 			if countryDiverges && isCountryTemplate(ta.Tpl) {
+				if ta.Out != tb.Out {
+					res.Dist("listed-finding:country-dependent-template-differs")
+				}
 				continue // part of the listed finding (environment country follows the chosen channel)
 			}
 			if mask(ta.Out) != mask(tb.Out) || ta.OK != tb.OK {
